@@ -7,7 +7,7 @@ package vh
 //	int   M in "", int8..int64, uint..uint64, float32, float64, named
 //	str   M in "", named, bytes, stringer
 //	list  M in "", []int, []string, []float64, [3]int, []map
-//	hash  M in "", map[string]int, map[string]string, map[int]string, map[iface], struct, ptrstruct
+//	hash  M in "", map[string]int, map[string]string, map[int]string, map[int64]string, map[uint64]string, map[iface], struct, ptrstruct, meth, ptrmeth
 //	ptr   pointer to A[0]      time  I = unix seconds (UTC)
 
 import (
@@ -36,6 +36,15 @@ type ZInner struct {
 	Z int
 	W string
 }
+
+// ZMeth has one method on the pointer and one on the value (hash tags "meth" / "ptrmeth")
+type ZMeth struct {
+	Name string
+	N    int
+}
+
+func (z *ZMeth) Label() string { return "label:" + z.Name }
+func (z ZMeth) Twice() int     { return z.N * 2 }
 
 func ZPtr(e *E) *E         { return &E{K: "ptr", A: []*E{e}} }
 func ZTime(u int64) *E     { return &E{K: "time", I: u} }
@@ -164,12 +173,39 @@ func zooGo(e *E, variant int) interface{} {
 				out[i*10+len(e.Ks[i])] = e.A[i].S
 			}
 			return out
+		case "map[int64]string":
+			// keys that differ only above 2^53 (a float64 cannot tell them apart)
+			out := map[int64]string{}
+			for _, i := range idx {
+				out[int64(1)<<53+int64(i)] = e.A[i].S
+			}
+			return out
+		case "map[uint64]string":
+			out := map[uint64]string{}
+			for _, i := range idx {
+				out[^uint64(0)-uint64(i)] = e.A[i].S
+			}
+			return out
 		case "map[iface]":
 			out := map[interface{}]interface{}{}
 			for _, i := range idx {
 				out[e.Ks[i]] = zooGo(e.A[i], variant)
 			}
 			return out
+		case "meth", "ptrmeth":
+			s := ZMeth{Name: "n"}
+			for _, i := range idx {
+				switch e.Ks[i] {
+				case "Name":
+					s.Name = e.A[i].S
+				case "N":
+					s.N = int(e.A[i].I)
+				}
+			}
+			if e.M == "ptrmeth" {
+				return &s
+			}
+			return s
 		case "struct", "ptrstruct":
 			s := ZStruct{Name: "n", hid: 3}
 			for _, i := range idx {
